@@ -82,11 +82,22 @@ def rule_a(chk, prog):
                             local_names.add(name)
                     if name in local_names:
                         continue
+                    # locals that alias (a part of) the global: X = G, X = G[k], X = G.attr  (no call in between: .copy(), dict(...) give fresh objects)
+                    aliases = set()
+                    for a_ in walk_no_nested(fi.node):
+                        if isinstance(a_, ast.Assign) and len(a_.targets) == 1 and isinstance(a_.targets[0], ast.Name):
+                            b_ = a_.value
+                            while isinstance(b_, (ast.Attribute, ast.Subscript)):
+                                b_ = b_.value
+                            if isinstance(b_, ast.Name) and b_.id == name:
+                                aliases.add(a_.targets[0].id)
                     for s in stores(prog, fi, None):
                         base = s.target
                         while isinstance(base, (ast.Attribute, ast.Subscript)):
                             base = base.value
                         if isinstance(base, ast.Name) and base.id == name and s.kind != "name":
+                            hits.append((fi, s))
+                        elif isinstance(base, ast.Name) and base.id in aliases and s.kind != "name":
                             hits.append((fi, s))
                     for n in walk_no_nested(fi.node):
                         if isinstance(n, ast.Global) and name in n.names:
